@@ -9,7 +9,9 @@ Request  `{"nodes": [[kind, label, [in…], [[args, results]…]]…]   (oldest 
            "emit":  EG,            EG = [args, [[id, [EG…]]…], results]   (the nested emission
                                    extracted from the real ModelProto)
            "vals":  [[v…]…],       actual main inputs (several bindings)
-           "seed":  n}`
+           "seed":  n,
+           "denote": bool}`        (false: skip `denoteG` — its cost is exponential in the number of
+                                   body-bearing nodes, the harness skips it for the few huge programs)
 Response `{"wf", "valid", "runs": [{"eval": [v…] | null, "denote": [v…]}…]}` where `eval` is
 `evalG` on the emission and `denote` is `denoteG` on the program, both under the fixed integer
 semantics `drvSem` (every label a different mixing function, bodies applied to derived arguments).
@@ -87,12 +89,12 @@ def handle (req : Json) : Json :=
     let valsJ ← req.getObjValAs? (Array Json) "vals"
     let valss ← valsJ.toList.mapM parseNats
     let seed ← req.getObjValAs? Nat "seed"
+    let wantDenote := (req.getObjValAs? Bool "denote").toOption.getD true
     let b : Nat → Nat := fun a => (seed * (a + 1) * 7919 + 13) % P
     let runs := valss.map fun vals =>
       let ev := evalG drvSem prog e (fun _ => none) vals
-      let dn := denoteG drvSem prog b main vals
       Json.mkObj [("eval", match ev with | none => Json.null | some l => toJson l),
-                  ("denote", toJson dn)]
+                  ("denote", if wantDenote then toJson (denoteG drvSem prog b main vals) else Json.null)]
     return Json.mkObj [
       ("wf", toJson (wfCheck prog)),
       ("valid", toJson (validG prog e main [])),
